@@ -16,12 +16,30 @@ import (
 //   <out>.trace   "# history <n> seed <s>" then one line per call (read by the Lean driver)
 //   <out>.ops     the abstract operations, one JSON array per history (for replay / shrinking)
 
+type runOpts struct {
+	crashAt, failAt   int
+	stateOut, stateIn string
+	keepRoot          bool
+	recover           bool
+}
+
+var opts runOpts
+
 func runHistory(root string, ops []Op, w *bufio.Writer, seed int64) (lines int, stats map[string]int) {
-	os.RemoveAll(root)
+	if !opts.recover {
+		os.RemoveAll(root)
+	}
 	if err := os.MkdirAll(root, 0700); err != nil {
 		panic(err)
 	}
 	ex := NewExec(root, w, seed)
+	ex.crashAt, ex.failAt, ex.stateOut = opts.crashAt, opts.failAt, opts.stateOut
+	if opts.stateIn != "" {
+		ex.loadState(opts.stateIn)
+	}
+	if opts.recover {
+		ops = recoveryOps(ex)
+	}
 	done := make(chan struct{})
 	go func() {
 		select {
@@ -43,8 +61,32 @@ func runHistory(root string, ops []Op, w *bufio.Writer, seed int64) (lines int, 
 			ex.db.Close()
 		}()
 	}
-	os.RemoveAll(root)
+	ex.saveState()
+	if !opts.keepRoot {
+		os.RemoveAll(root)
+	}
 	return ex.lines, ex.stats
+}
+
+// recoveryOps is what a process does on a directory left by a crash: open it, look at the
+// first answer, check, repair, check again, and read everything back.
+func recoveryOps(ex *Exec) []Op {
+	ops := []Op{{Op: "reopen"}, {Op: "count"}, {Op: "control"}, {Op: "consistent"}, {Op: "repair"}, {Op: "control"}, {Op: "consistent"}}
+	ks := []int{}
+	for k := range ex.kmap {
+		ks = append(ks, k)
+	}
+	sort.Ints(ks)
+	for _, k := range ks {
+		ops = append(ops, Op{Op: "get", K: k}, Op{Op: "exist", K: k})
+	}
+	ops = append(ops, Op{Op: "count"}, Op{Op: "all"}, Op{Op: "ls"})
+	for _, l := range leaves {
+		if l.Cast != "-" {
+			ops = append(ops, Op{Op: "aidx", Field: l.Path})
+		}
+	}
+	return ops
 }
 
 func main() {
@@ -55,7 +97,21 @@ func main() {
 	root := flag.String("root", "", "scratch directory for databases")
 	replay := flag.String("replay", "", "replay the histories of an .ops file instead of generating")
 	list := flag.Bool("list", false, "list profiles")
+	casecheck := flag.Bool("casecheck", false, "validate the case-mapping laws the Lean theorems assume, over all code points")
+	flag.IntVar(&opts.crashAt, "crashat", 0, "exit(77) just before the n-th directory mutation (shim build only)")
+	flag.IntVar(&opts.failAt, "failat", 0, "fail the n-th directory mutation with an I/O error (shim build only)")
+	flag.StringVar(&opts.stateOut, "state-out", "", "write uuid/handle tables to this file at exit")
+	flag.StringVar(&opts.stateIn, "state-in", "", "load uuid/handle tables from this file")
+	flag.BoolVar(&opts.keepRoot, "keep", false, "keep the database directory")
+	flag.BoolVar(&opts.recover, "recover", false, "run the recovery sequence on an existing directory (needs -state-in)")
+	sleepdiv := flag.Int("sleepdiv", 1, "divide the package's sleeps (shim build only)")
 	flag.Parse()
+	shimSleepDiv(*sleepdiv)
+
+	if *casecheck {
+		caseCheck()
+		return
+	}
 
 	if *list {
 		names := []string{}
@@ -80,7 +136,10 @@ func main() {
 
 	var histories [][]Op
 	var seeds []int64
-	if *replay != "" {
+	if opts.recover {
+		histories = append(histories, nil)
+		seeds = append(seeds, *seed)
+	} else if *replay != "" {
 		data, err := os.ReadFile(*replay)
 		if err != nil {
 			panic(err)
@@ -124,7 +183,11 @@ func main() {
 	lines := 0
 	for i, ops := range histories {
 		fmt.Fprintf(tw, "# history %d seed %d\n", i, seeds[i])
-		l, st := runHistory(filepath.Join(*root, fmt.Sprintf("h%d", i)), ops, tw, seeds[i])
+		dir := filepath.Join(*root, fmt.Sprintf("h%d", i))
+		if opts.recover || opts.keepRoot {
+			dir = *root
+		}
+		l, st := runHistory(dir, ops, tw, seeds[i])
 		lines += l
 		for k, v := range st {
 			total[k] += v
@@ -134,4 +197,38 @@ func main() {
 	sf, _ := os.Create(*out + ".stats")
 	json.NewEncoder(sf).Encode(map[string]interface{}{"histories": len(histories), "lines": lines, "ops": total})
 	sf.Close()
+}
+
+// caseCheck validates, exhaustively over all Unicode scalar values, the facts about
+// strings.ToUpper / strings.ToLower that Props/C16.lean takes as hypotheses:
+//
+//	up∘up = up, lo∘lo = lo, (lo∘up)∘(lo∘up) = lo∘up, and the string functions map rune by rune.
+func caseCheck() {
+	n, bad := 0, []string{}
+	for r := rune(0); r <= 0x10FFFF; r++ {
+		if r >= 0xD800 && r <= 0xDFFF {
+			continue
+		}
+		n++
+		s := string(r)
+		up, lo := strings.ToUpper(s), strings.ToLower(s)
+		lu := strings.ToLower(up)
+		if strings.ToUpper(up) != up {
+			bad = append(bad, fmt.Sprintf("up-not-idempotent U+%04X", r))
+		}
+		if strings.ToLower(lo) != lo {
+			bad = append(bad, fmt.Sprintf("lo-not-idempotent U+%04X", r))
+		}
+		if strings.ToLower(strings.ToUpper(lu)) != lu {
+			bad = append(bad, fmt.Sprintf("loup-not-idempotent U+%04X", r))
+		}
+		// rune-by-rune: mapping a two-rune string equals the concatenation of the mappings
+		if strings.ToUpper("a"+s+"b") != "A"+up+"B" || strings.ToLower("A"+s+"B") != "a"+lo+"b" {
+			bad = append(bad, fmt.Sprintf("not-per-rune U+%04X", r))
+		}
+	}
+	json.NewEncoder(os.Stdout).Encode(map[string]interface{}{"code_points": n, "violations": bad})
+	if len(bad) > 0 {
+		os.Exit(1)
+	}
 }
